@@ -125,6 +125,9 @@ pub enum ProcessorError {
 
     #[error("log_prune processor failed with: {0}")]
     LogPrune(#[from] LogPruneError),
+
+    #[error("operation claims to be part of a different log than the one of this topic")]
+    LogMismatch,
 }
 
 impl<L, E, TP> Borrow<Operation<E>> for Event<L, E, TP> {
